@@ -17,6 +17,13 @@ DEPTH = {"quick": 3, "thorough": 4}
 def candidates(prog):
     """(queries, evidence atoms) offered to the history menu"""
     qs = list(prog["queries"])[:2]
+    # a binary query is also offered with a repeated variable (the tabling key of a non-ground call
+    # must record which argument positions share a variable)
+    for q in list(qs):
+        if len(q[1]) == 2 and is_var(q[1][0]) and is_var(q[1][1]) and q[1][0] != q[1][1]:
+            qs.insert(0, [q[0], [q[1][0], q[1][0]]])
+            break
+    qs = qs[:3]
     heads = [h for h in _heads_of(prog["clauses"]) if not any(is_var(t) for t in h[1])]
     ev = []
     for h in heads:
@@ -32,7 +39,7 @@ def menu(prog):
     ops = [["q", i] for i in range(len(qs))]
     for j in range(len(ev)):
         ops += [["e", j, True], ["e", j, False]]
-    ops += [["dbq", 0], ["bad"]]
+    ops += [["dbq", len(qs) - 1], ["bad"]]
     return ops
 
 
